@@ -667,7 +667,7 @@ pub fn run(e: &Engine) {
     e.campaign(
         "mutator-sessions",
         "1-5 sessions on 4 tasks; a high-level session applies 1-8 generated Task mutators (all public mutators incl. deprecated ones, reserved UDA names, synthetic tags, timestamps of either sign), a low-level session uses TaskData::update/delete, 'again' repeats the previous mutator list; the task model predicts the exact Update operations (property, previous value, new value) of every call and the resulting map; held object == reloaded object after commit; tags/annotations/dependencies/UDAs/synthetic tags/dependency map read back from the model; non-trivial = a session with >= 3 distinct mutator kinds including a status transition",
-        e.tier.pick(8000, 400_000),
+        e.tier.pick(300_000, 6_000_000),
         strategy,
         |c| serde_json::to_value(c).unwrap(),
         check_case,
